@@ -3,7 +3,7 @@
 scratch copy of /verif and its own scratch worktree of /repo (outside both, removed afterwards), K changes at a time.
 Writes seeded/<id>/matrix.json and updates meta.json (checks_that_catch_it). /repo itself is never touched."""
 import sys, os, json, subprocess, re, shutil, argparse, concurrent.futures as cf
-V = "/verif"; SCR = "/var/tmp/ctpg_mx"
+V = "/verif"; SCR = f"/var/tmp/ctpg_mx_{os.getpid()}"
 ALL = [f"C{i:02d}" for i in range(1, 20)]
 
 def sh(cmd, **kw):
@@ -16,7 +16,7 @@ def one(sid, checks):
     try:
         rc, out = sh(f"git -C /repo worktree add --detach {d}/repo HEAD && git -C {d}/repo apply {V}/seeded/{sid}/patch.diff")
         if rc: return sid, {"error": "patch does not apply: " + out[-300:]}
-        sh(f"rsync -a --exclude .git --exclude .cache --exclude replays --exclude evidence --exclude seeded {V}/ {d}/verif/")
+        sh(f"rsync -a --exclude /.git --exclude /.cache --exclude /replays --exclude /evidence --exclude /seeded {V}/ {d}/verif/")
         os.makedirs(f"{d}/verif/evidence", exist_ok=True)
         env = dict(os.environ, CTPG_VERIF_ROOT=f"{d}/verif", CTPG_REPO=f"{d}/repo")
         for c in checks:
